@@ -16,13 +16,13 @@ CHECKS = {
          "Each template (complete CSI table with numeric slots, macro/sixel/font/margin families) is executed on the real engine with every slot at W*H+1, 2^16, 10^6 and 2^31-1. The monitors decide on deterministic counts (ticks, bytes requested, nesting depth), not wall-clock: ticks <= 16(n+1)WH*max(W,H), peak allocation <= 64MiB+4096n, nesting <= 32, and no growth beyond 2x between magnitudes >= 2^16. The CSI table is complete for parameter vectors of length <= 3 in quick and <= 6 in thorough.",
          "One tick per cell/pixel/glyph operation at the hook sites; loops without a tick are only seen by the 2 s CPU clock and the 60 s supervisor watchdog. Bounds are generous constants chosen by the harness; macro replay (65536 chars) and sixel (2048 px) limits of the engine are treated as fixed constants.", "DESIGN.md §4 C03"),
  "C04": ("write->parse differential on the real ANSI writer and parser with an observational per-cell oracle (glyph bitmap, displayed foreground/background where the glyph has such pixels, blink), cycling through all 2304 option configurations x 3 ice modes, violations shrunk over options and cells",
-         "Every boolean save option combination (2^8) x 3 screen preparations x 3 control-character modes is exercised with generated buffers (6 per configuration in quick, 300 in thorough) whose rows are shaped for the substitutions (runs, blank runs on black / colour / blinking, rows ending at the margin, empty and full rows) and whose cells cover CP437 incl. NUL/0xFF/control codes, DOS/xterm/RGB colours and all attributes. The loaded buffer must show the same picture in every cell.",
+         "Every boolean save option combination (2^8) x 3 screen preparations x 3 control-character modes is exercised with generated buffers (24 per configuration in quick, 300 in thorough) whose rows are shaped for the substitutions (runs, blank runs on black / colour / blinking, rows ending at the margin, empty and full rows) and whose cells cover CP437 incl. NUL/0xFF/control codes, DOS/xterm/RGB colours and all attributes. The loaded buffer must show the same picture in every cell.",
          "Equality is observational, as the statement words it; UTF-8 output is excluded.", "DESIGN.md §4 C04"),
  "C05": ("write->read differential on the real writers/loaders with an observational per-cell oracle (glyph bitmap, displayed colours, blink), independent reference decoders for BIN/ADF/IDF/Tundra reading the same bytes (three-way agreement), and load->save->load stability on accepted files incl. mutated ones",
          "Generated documents in each format's domain (XBin up to 4096 wide with 1 or 2 fonts of height 1..=32 and six-bit palettes, BIN even widths, ADF/IDF ice 8x16, Tundra 24-bit) with forced classes (heights <25/=25/>25, control-range characters, second-font cells) are saved, decoded by a reference decoder, loaded and compared on size, shown cells, font page, ice mode, fonts and palette, then re-saved and re-loaded. Seed files and mutated seeds that the loader accepts are checked for re-save stability.",
          "Cells are compared by what they show; palette colours at six-bit precision where the format stores six bits.", "DESIGN.md §4 C05"),
  "C06": ("strict specification decoder (reference model written from x_bin.htm) applied to the bytes the real writer emits, plus three-way loader differential; exhaustive small-scope row enumeration packed 4096 rows per buffer",
-         "All rows of width 1..=7 over 3 chars x 3 attributes x 2 font pages (6.1e8 rows, thorough; widths 1..=5 in quick) and width 1..=10 over a 2x2 alphabet are saved compressed and decoded by an independent decoder that enforces run length 1..=64, no run across a row boundary, exact row width and no trailing bytes; decoded bytes must equal the source incl. the font-page bit; the engine's loader must give the same cells for compressed and uncompressed output. Random buffers up to 200x30 add long runs around the 64-cell limit.",
+         "All rows of width 1..=7 over 3 chars x 3 attributes x 2 font pages (6.1e8 rows, thorough; widths 1..=6 in quick) and width 1..=10 over a 2x2 alphabet are saved compressed and decoded by an independent decoder that enforces run length 1..=64, no run across a row boundary, exact row width and no trailing bytes; decoded bytes must equal the source incl. the font-page bit; the engine's loader must give the same cells for compressed and uncompressed output. Random buffers up to 200x30 add long runs around the 64-cell limit.",
          "Rows are independent in this format, which is what makes packing many rows into one buffer an exhaustive enumeration of row neighbourhoods.", "DESIGN.md §4 C06"),
  "C07": ("write->read differential on the real IcyDraw (.icy) writer and loader with a field-by-field comparator over generated documents (runtime round-trip monitor), violations shrunk over layers, cells and fonts",
          "Documents with 1..=6 layers of every flag combination, mode, colour tag, offset (negative too), size incl. 0 and > 255, Unicode and 300-character titles, short- and long-form cells incl. characters above 0xFFFF, colours above 255 and the transparent colour, palettes of 1..=300 colours, font slots up to 300 with built-in and custom glyphs, with and without SAUCE are saved and loaded; size, modes, every layer property, every cell inside the layer size, palette, every font slot and the SAUCE fields must come back. Loader robustness on mutated chunk streams is C02/C03's matter.",
@@ -43,7 +43,7 @@ CHECKS = {
          "Every RIP level-0/1/9 command x parameter length 0..=24 x {0,1,Z} and every string over {0,1,Z} up to length 6, every IGS command x 0..=12 parameters x 7 value classes are enumerated; random mixed / truncated / over-long streams with state prefixes, loops and chains are sampled. Each command may spend at most 16x the canvas size in pixel operations; get_picture_data() must return width*height*4 bytes after every command; any sleep request raises.",
          "RIP file commands run against an empty scratch directory. Known unimplemented feature (button label orientations, todo!()) is listed in known_findings.json.", "DESIGN.md §4 C20"),
  "C10": ("raw-bits runtime monitor over every stored char / String after each case (volatile u32 reads, str::from_utf8), debug-assertion UB precondition aborts observed via worker-death attribution, and the Miri interpreter on the unchecked-conversion sites (thorough)",
-         "Every value of the quantifier's finite parts is executed on the real code: DECFRA fill character 0..=0x110010 (thorough: every value, quick: every 16th plus all surrogates and boundaries and 2^k+-1), all 65536 clipboard cell values, IcyDraw long-form cells with all 2048 surrogates / boundaries / random u32 in first and continuation chunks, invalid-UTF-8 titles and font names, glyph counts up to 2^17, all 256x256 hex-macro pairs. After each case every char the engine stores or returns is range-checked from its raw bits. Thorough also runs 6 Miri workloads (fill, hexmacro, clipboard, font, xbin transmute, icy) which report invalid-value construction even if the value is never read.",
+         "Every value of the quantifier's finite parts is executed on the real code: DECFRA fill character 0..=0x110010 (thorough: every value, quick: every 4th plus all surrogates and boundaries and 2^k+-1), all 65536 clipboard cell values, IcyDraw long-form cells with all 2048 surrogates / boundaries / random u32 in first and continuation chunks, invalid-UTF-8 titles and font names, glyph counts up to 2^17, all 256x256 hex-macro pairs. After each case every char the engine stores or returns is range-checked from its raw bits. Thorough also runs 6 Miri workloads (fill, hexmacro, clipboard, font, xbin transmute, icy) which report invalid-value construction even if the value is never read.",
          "The raw-bits monitor only sees values that are still stored after the call; transient invalid values are seen by the debug-assertion precondition checks and by Miri on the listed scenarios only.", "DESIGN.md §4 C10"),
  "C11": ("independent SAUCE reference reader/writer (from the Revision-5 layout) against the real writer/reader, per-variant projection model of the metadata after load, and differential loading of content vs content+trailer",
          "For each of the ten SAUCE-writing formats, documents with generated metadata of every field length, 0..=255 comments and widths up to 1000 are saved and (a) parsed by a reference reader, (b) loaded and compared with what the variant can carry; the exactness of the cut is checked by sauce_header_len == trailer length and cell equality of content vs content+trailer, including look-alike markers, empty and 127/128/129-byte contents, and foreign (reference-written, NUL-padded, EOF-less) trailers.",
